@@ -314,3 +314,27 @@ pub fn diag_dump<M: crate::Math>(math: &mut M, mm: &DiagMassMatrix<M>) -> Json {
         "id": Transformation::transformation_id(mm, math),
     })
 }
+
+/// What the transformation does to a fixed probe point (position, gradient): a fingerprint of its parameters that
+/// does not depend on its own change counter. `null` when tracing is off or the probe cannot be transformed.
+pub fn transformation_fingerprint<M: crate::Math, T: Transformation<M>>(math: &mut M, t: &T) -> Json {
+    if !tracing() {
+        return Json::Null;
+    }
+    let dim = math.dim();
+    let pos: Vec<f64> = (0..dim).map(|i| 0.5 + 0.25 * i as f64).collect();
+    let grad: Vec<f64> = (0..dim).map(|i| -1.0 + 0.125 * i as f64).collect();
+    let (mut x, mut g) = (math.new_array(), math.new_array());
+    math.read_from_slice(&mut x, &pos);
+    math.read_from_slice(&mut g, &grad);
+    let (mut y, mut gy) = (math.new_array(), math.new_array());
+    match t.inv_transform_normalize(math, &x, &g, &mut y, &mut gy) {
+        Ok(logdet) => {
+            let mut all = math.box_array(&y).to_vec();
+            all.extend_from_slice(&math.box_array(&gy));
+            all.push(logdet);
+            json!(hash_f64s(&all))
+        }
+        Err(_) => Json::Null,
+    }
+}
